@@ -10,6 +10,7 @@ parse(text) -> dict with
   events     [(time or None, id, value token)]   value token = '0' / '1' / 'b0101' ...; None = before the first '#'
   body       the tokens of the value-change section, as written
   timescale  str
+  dup_scopes scope paths opened more than once
 """
 
 class VcdError(Exception):
@@ -29,6 +30,7 @@ def parse(text):
   n = len(toks)
   i = 0
   scope, decls, events = [], [], []
+  scopes_seen, dup_scopes = set(), []
   timescale = None
 
   def block(j):
@@ -50,6 +52,8 @@ def parse(text):
       inner, i = block(i)
       if len(inner) != 2: raise VcdError(f'bad $scope {inner}')
       scope.append(inner[1])
+      if tuple(scope) in scopes_seen: dup_scopes.append(tuple(scope))
+      scopes_seen.add(tuple(scope))
     elif t == '$upscope':
       inner, i = block(i)
       if inner or not scope: raise VcdError('bad $upscope')
@@ -104,7 +108,7 @@ def parse(text):
       _, i = block(i)
     else:
       raise err(f'not a value change: {t!r}', i)
-  return {'decls': decls, 'events': events, 'body': body, 'timescale': timescale}
+  return {'decls': decls, 'events': events, 'body': body, 'timescale': timescale, 'dup_scopes': dup_scopes}
 
 def value_of(tok):
   """numeric value of a value token; None if it has x/z digits"""
